@@ -479,9 +479,35 @@ def main():
         src = "\n".join("\n".join(progen.src_const(c, lay)) for c in p['consts']) + "\n" + ren + "\n"
         src = re.sub(r"\b(f\d+|C_\d+)\b", lambda mm: "h%d_%s" % (i, mm.group(1)), src)
         mods.append(("h%d.pn" % i, src))
+    # an exported function named like a C library function that the builtins call (known finding F102): a module that nobody
+    # imports takes `write` away from `print!` in every other module
+    hp = [("main.pn", 'fn main() -> i32\n{\n\tprint!("hello\\n");\n\treturn: 5\n}\n'),
+          ("unrelated.pn", "pub fn write(x: i32, y: i32, z: i32) -> i64\n{\n\treturn: 0\n}\n")]
+    for o in ((0, 1), (1, 0)):
+        rq = "alpha\trun\t" + "\t".join(x for j in o for x in (hp[j][0], esc(hp[j][1])))
+        ha = run_harness_serial([rq])[0]
+        hh, hd = kv(ha)
+        total += 1
+        if hh == "ok" and hd.get("status") == "5" and bytes.fromhex(hd.get("stdout", "h:")[2:]) == b"hello\n":
+            agreeing += 1
+        else:
+            rep.violation("c12:exported-function-named-like-a-c-function-of-the-builtins", {
+                "why": "main.pn prints hello and returns 5 on its own; with a module that nobody imports and that defines `pub fn write` "
+                       "it prints something else: " + ha[:200], "files": dict(hp), "harness_request": rq, "implementation": ha[:400]})
+    # modules that bind the same C functions themselves (the same `extern fn` heads, pub or not, in several modules of one
+    # compilation: declarations, not definitions), each with a function of its own: every ordered pair and triple
+    binders = [("hb0.pn", "pub extern fn toupper(x: i32) -> i32;\n\npub fn hb0_shout(c: i32) -> i32\n{\n\treturn: toupper(c)\n}\n"),
+               ("hb1.pn", "pub extern fn tolower(x: i32) -> i32;\npub extern fn toupper(x: i32) -> i32;\n\n"
+                          "pub fn hb1_whisper(c: i32) -> i32\n{\n\treturn: tolower(toupper(c))\n}\n"),
+               ("hb2.pn", "extern fn toupper(x: i32) -> i32;\n\npub fn hb2_up(c: i32) -> i32\n{\n\tvar r: i32 = toupper(c);\n\treturn: r\n}\n")]
+    mods += binders
+    fixed_seqs = [list(q) for k in (2, 3) for q in itertools.permutations(binders, k)]
     alone = run_harness(["alpha\tirs\t%s\t%s" % (n, esc(s)) for n, s in mods])
-    for t in range(40 if thorough else 6):
-        seq = [mods[rng.below(len(mods))] for _ in range(2 + rng.below(3))]
+    for t in range((40 if thorough else 6) + len(fixed_seqs)):
+        if t < len(fixed_seqs):
+            seq = fixed_seqs[t]
+        else:
+            seq = [mods[rng.below(len(mods))] for _ in range(2 + rng.below(3))]
         if len(set(n for n, _ in seq)) != len(seq):
             continue
         rq = "alpha\tirs\t" + "\t".join(x for n, s in seq for x in (n, esc(s)))
